@@ -27,6 +27,8 @@ func genFormat(c *Ctx) {}
 func genMocks(c *Ctx) {
 	gen.CheckNoGlobalWrites(c.Run, c.Prog, "G-FRAME/global-state")
 	gen.CheckPure(c.Run, c.Prog, "G-PURE/render-helpers")
+	// the import registry is the one piece of state shared by the mocks of a run
+	gen.CheckImports(c.Run, c.Prog)
 }
 
 func genCompile(c *Ctx) {
